@@ -477,7 +477,7 @@ def pred_c09(tr, story):
             pending_at_close = {int(w[1:]) for ws in pj["table"].values() for w in ws if w.startswith("c") and w[1:].isdigit()}
         for o in obs:
             # a synchronous entry point (send_messages, force_disconnect, ...) raising something outside the hierarchy
-            if o.startswith("X") and o != "XRT" and not o.startswith("XL.") and label.split(":")[0] in ("send", "force", "call", "wake"):
+            if o.startswith("X") and not o.startswith("XL.") and label.split(":")[0] in ("send", "force", "call", "wake"):
                 v.append(("C09/raw-error", f"{label} raised {o[1:]}, not an error of the library's connection-error hierarchy", i))
         for o in obs:
             if not (o.startswith("T") and "=" in o):
